@@ -14,7 +14,7 @@
      event, the results of espconn_sent and all timing are unconstrained. *)
 From Coq Require Import List ZArith Bool.
 Import ListNotations.
-From V Require Import Base.Bytes Gen.ProtoConsts Gen.C04Consts C04.Model C04.Proofs.
+From V Require Import Base.Bytes Base.Iface Gen.ProtoConsts Gen.C04Consts C04.Model C04.Proofs.
 Local Open Scope Z_scope.
 
 (* The generated list of every srpc_*async* call site of the device sources is what the theorems rest on:
@@ -51,6 +51,32 @@ Theorem C04_clean_restart : forall cs cc s,
 Proof. intros cs cc. exact (C04_clean_restart_thm cs cc C04_sites_guarded). Qed.
 Print Assumptions C04_clean_restart.
 
+(* "after a refusal it stops and closes the connection": a register result other than TRUE (any code) or a version error
+   marks the instance (refused_at = now, nothing is sent, the registration is not accepted) ... *)
+Theorem C04_refusal_marks : forall code tmo s p, srpc s = Some p -> code <> RESULTCODE_TRUE ->
+  let s' := on_register_result code tmo s in
+  exists p', srpc s' = Some p' /\ refused_at p' = Some (now s) /\ hist p' = hist p /\ got_ok p' = got_ok p /\
+             registered s' = registered s /\ outs s' = outs s.
+Proof. exact refusal_marks_thm. Qed.
+Print Assumptions C04_refusal_marks.
+
+(* ... the stop timer is then armed for exactly refused_at + stop delay (5 ms) in every reachable state, and once an
+   Adv step has reached that time the instance no longer exists (unless it was refused again less than 5 ms before the
+   end of the step); ending an instance is done by __stop only, which calls espconn_disconnect. *)
+Theorem C04_refusal_stops : forall cs cc s p t,
+  reachable cs cc s -> srpc s = Some p -> refused_at p = Some t ->
+  armed (t_stop s) = true /\ due (t_stop s) = t + STOP_DELAY_MS * 1000 /\
+  (forall dt, 0 <= dt -> halted s = false -> stuck s = false ->
+     let s' := step s (Adv dt) in halted s' = false -> stuck s' = false ->
+     forall p' t', srpc s' = Some p' -> refused_at p' = Some t' -> now s + dt < t' + STOP_DELAY_MS * 1000).
+Proof. intros cs cc. exact (C04_refusal_stops_thm cs cc C04_sites_guarded). Qed.
+Print Assumptions C04_refusal_stops.
+
+Theorem C04_stop_disconnects : forall s,
+  In (mk O_DISCONNECT [now s] []) (outs (devconn_stop s)) /\ srpc (devconn_stop s) = None /\ started (devconn_stop s) = false.
+Proof. exact devconn_stop_disconnects. Qed.
+Print Assumptions C04_stop_disconnects.
+
 (* without either clearing (the tree before docs/fixes/C04_stop_clears_buffers.diff) the clean-restart clause is false *)
 Theorem C04_old_code_refuted :
   let s := witness_final false false in
@@ -62,6 +88,14 @@ Print Assumptions C04_old_code_refuted.
 Example C04_witness_repaired :
   espbuf (witness_final true false) = [] /\ espbuf (witness_final false true) = [] /\ conn (witness_final true false) = 2.
 Proof. exact C04_witness_repaired_thm. Qed.
+
+Example C04_ex_accepted : reachable true false ex_accepted /\
+  exists p, srpc ex_accepted = Some p /\ got_ok p = true /\ hist p = [CALL_VALUE_CHANGED; CALL_SET_ACTIVITY_TIMEOUT; CALL_REGISTER_E] /\ sid p = 1.
+Proof. exact ex_accepted_ok. Qed.
+Example C04_ex_refused : reachable true false ex_refused /\
+  exists p, srpc ex_refused = Some p /\ refused_at p = Some 1100000 /\ hist p = [CALL_REGISTER_E] /\ registered ex_refused = -1 /\
+  srpc (step ex_refused (Adv 1)) = None /\ link ex_refused = L_LIVE /\ link (step ex_refused (Adv 1)) = L_CLOSING.
+Proof. exact ex_refused_ok. Qed.
 
 (* LAST, so that everything above is still checked on an unrepaired tree: the tree the model was generated from
    clears the two byte buffers in supla_esp_devconn__stop or in the connect callback. *)
